@@ -68,10 +68,10 @@ def main(tier):
         its = universe.one_dev(corpus.small_slice(), KINDS) + universe.one_dev(corpus.seed_ids(("fix", "cls", "gen", "big")), ("ALLUP", "ALLLO"))
         bound = "1 deviation (every layout and case operator at every position) over S_q; whole-file case flips over all seeds"
     else:
-        its = universe.one_dev(corpus.seed_ids(("fix", "cls", "gen", "big")), KINDS)
+        its = universe.one_dev(corpus.seed_ids(("fix", "cls")), KINDS) + universe.one_dev(corpus.seed_ids(("gen", "big")), ("NL", "CE", "J", "ALLUP", "ALLLO", "CAP"))
         singles = [s for s in corpus.small_slice() if s.startswith("gen/")]
         its += universe.two_dev(singles, ("NL", "CE", "J", "W0", "WI", "UP"), max_dist_lines=1)
-        bound = "1 deviation over all seeds; 2 deviations (NL, CE, J, W0, CD, UP; at most one line apart) over the single-construct generated designs"
+        bound = "1 deviation (every operator) over all fix/cls seeds, (NL, CE, J, CAP, whole-file case) over generated and large seeds; 2 deviations (NL, CE, J, W0, CD, UP; at most one line apart) over the single-construct generated designs"
     m = explore.run(its, execute, horizon=30.0, label=PROP, chunk=64)
     return report.finish(
         PROP, tier, "exploration", [m], t0,
